@@ -18,7 +18,7 @@ TRUSTED = [
     "correspondence harness harness/e4 (in-process NSQLookupd, real TCP connections, white-box "
     "back-dating of lastUpdate/tombstonedAt instead of sleeping; canonicalisation = sorting)",
     "encoding/json (IDENTIFY body decoding is an input of the model), net/http + httprouter v1.3.0 "
-    "(static routing, 404/405/OPTIONS; redirects for trailing slash / case are not modelled), bufio",
+    "(static routing, 404/405/OPTIONS; C15 also models the 301/307 redirects for trailing slash / case / unclean paths, tied by its sweep), bufio",
 ]
 
 
